@@ -131,6 +131,12 @@ class DjangoWorld(World):
     def apply(self, op):
         if op[0] == 'tick':
             ENV.now += op[1]
+            # what is visible changes with time: compare right away
+            a, b = self.probe(self.impl), self.probe(self.ref)
+            if not same(a, b):
+                diff = [(x, y) for x, y in zip(a, b) if not same(x, y)]
+                return None, [('contents', 'after the clock advanced the '
+                               'visible state differs: %r' % (diff[:3],))]
             return None, []
         unspecified = False
         if op[0] == 'delete':
